@@ -2,12 +2,15 @@
    seq <m|n> <op> <op> ...   one operation sequence from flatcc_refmap_init; m = extracted refmap_hash,
                              n = the same finalizer on native Int64 (the theorems hold for every hash function;
                              `hash`/`nhash` lines let the check compare the two and the C on samples)
-     i<src>,<ref>,<a>  insert (a: 1 calloc answers, 0 calloc refuses)   -> [F]<ret>/<count>/<buckets>
-     f<src>            find                                              -> <ret>
-     r<c>,<a>          resize                                            -> [F]<ret>/<count>/<buckets>
-     z  reset, c  clear                                                  -> z/<count>/<buckets>
-     d                 dump of occupied slots                            -> D<slot>:<src>:<ref>;...
+     The growth policy is an ORACLE: <g> is what the implementation was observed to do in this operation,
+     F = the allocation was refused, <n> = the bucket count after the operation.
+     i<src>,<ref>,<g>  insert            -> <ret>/<count> | F<ret>/<count> | POLICY/<count>/<buckets of the model>
+     f<src>            find              -> <ret>
+     r<c>,<g>          resize            -> <ret>/<count> | F<ret>/<count> | POLICY/<count>/<buckets of the model>
+     z  reset, c  clear                  -> z/<count>
+     d                 dump of occupied slots  -> D<slot>:<src>:<ref>;...
    hash <src> / nhash <src>
+   refpolicy <count> <buckets> [<c>]   the bucket count the transcribed refmap.c policy chooses for an insert [a resize(c)] (diagnostic)
    clone <root> <fuel> <node>:<child>,<child>;...   abstract memoized clone with the extracted refmap as memo *)
 let int64_of_z z =
   let rec pos p = match p with XH -> 1L | XO q -> Int64.shift_left (pos q) 1 | XI q -> Int64.logor (Int64.shift_left (pos q) 1) 1L in
@@ -35,31 +38,31 @@ let native_hash (src : z) : z =
 let split_on c s = String.split_on_char c s
 let tail s = String.sub s 1 (String.length s - 1)
 
+let oracle_of g = if g = "F" then ORefused else OBuckets (z_of_string g)
 let run_seq hm ops =
   let hash = if hm = "n" then native_hash else refmap_hash in
   let b = Buffer.create 65536 in
   let m = ref rm_init in
   let dead = ref false in
-  let st () = "/" ^ string_of_z !m.count ^ "/" ^ string_of_z !m.buckets in
+  let st () = "/" ^ string_of_z !m.count in
   let first = ref true in
   let emit s = (if !first then first := false else Buffer.add_char b ' '); Buffer.add_string b s in
+  let outc = function
+    | Some (m', Done v) -> m := m'; emit (string_of_z v ^ st ())
+    | Some (m', AllocFailed v) -> m := m'; emit ("F" ^ string_of_z v ^ st ())
+    | Some (m', BadPolicy) -> m := m'; emit ("POLICY" ^ st () ^ "/" ^ string_of_z !m.buckets)
+    | None -> dead := true; emit "NONE" in
   List.iter (fun tok ->
     if !dead then emit "X" else
     match tok.[0] with
     | 'i' -> (match split_on ',' (tail tok) with
-        | [s; r; a] -> (match insert hash (a = "1") !m (z_of_string s) (z_of_string r) with
-            | Some (m', Done v) -> m := m'; emit (string_of_z v ^ st ())
-            | Some (m', AllocFailed v) -> m := m'; emit ("F" ^ string_of_z v ^ st ())
-            | None -> dead := true; emit "NONE")
+        | [s; r; g] -> outc (insert hash !m (z_of_string s) (z_of_string r) (oracle_of g))
         | _ -> emit "BAD")
     | 'f' -> (match find hash !m (z_of_string (tail tok)) with
         | Some v -> emit (string_of_z v)
         | None -> dead := true; emit "NONE")
     | 'r' -> (match split_on ',' (tail tok) with
-        | [c; a] -> (match resize hash (a = "1") !m (z_of_string c) with
-            | Some (m', Done v) -> m := m'; emit (string_of_z v ^ st ())
-            | Some (m', AllocFailed v) -> m := m'; emit ("F" ^ string_of_z v ^ st ())
-            | None -> dead := true; emit "NONE")
+        | [_; g] -> outc (resize hash !m (oracle_of g))
         | _ -> emit "BAD")
     | 'z' -> m := reset !m; emit ("z" ^ st ())
     | 'c' -> m := clear !m; emit ("c" ^ st ())
@@ -83,7 +86,9 @@ let run_clone root fuel graph =
       | _ -> failwith "graph") (split_on ';' graph);
   let children n = try Hashtbl.find tbl (string_of_z n) with Not_found -> [] in
   let mfind m k = match find refmap_hash m k with Some v -> v | None -> failwith "find: NONE" in
-  let minsert m k r = match insert refmap_hash true m k r with Some (m', _) -> m' | None -> failwith "insert: NONE" in
+  let minsert m k r =
+    let nb = match ref_insert_buckets m with Some nb -> nb | None -> failwith "reference policy: NONE" in
+    match insert refmap_hash m k r (OBuckets nb) with Some (m', Done _) -> m' | Some _ -> failwith "insert: refused / policy" | None -> failwith "insert: NONE" in
   match clone mfind minsert children (nat_of_int fuel) { memo = rm_init; emitted = [] } (z_of_string root) with
   | None -> "NONE"
   | Some (st, r) -> string_of_z r ^ " " ^ string_of_z st.memo.count ^ " " ^ String.concat "," (List.map string_of_z st.emitted)
@@ -92,6 +97,8 @@ let handle = function
   | "seq" :: hm :: ops -> run_seq hm ops
   | ["hash"; s] -> string_of_z (refmap_hash (z_of_string s))
   | ["nhash"; s] -> string_of_z (native_hash (z_of_string s))
+  | ["refpolicy"; c; b] -> (match ref_insert_buckets { count = z_of_string c; buckets = z_of_string b; table = TLeaf } with Some nb -> string_of_z nb | None -> "NONE")
+  | ["refpolicy"; c; b; rq] -> (match ref_resize_buckets { count = z_of_string c; buckets = z_of_string b; table = TLeaf } (z_of_string rq) with Some nb -> string_of_z nb | None -> "NONE")
   | ["clone"; root; fuel; graph] -> run_clone root (int_of_string fuel) graph
   | l -> "BAD " ^ String.concat " " (List.filteri (fun i _ -> i < 4) l)
 let () = main_loop handle
